@@ -204,6 +204,21 @@ def run(chk):
                     z = np.asarray(g['z'])
                     if np.any(z < -hc.LBOX / 2) or np.any(z >= hc.LBOX / 2):
                         chk.violation('rsd-wrap', f'{desc}: {t} redshift-space z not wrapped into [-L/2, L/2)', dict(S=S, tracer=t))
+            # the assembly of centrals and satellites with very few satellites and many threads: every row must still carry its host
+            if ci == 0:
+                few = {k2: v2[:3].copy() for k2, v2 in parts.items()}
+                o16 = hc.run_hod(halos, few, tracers, Nthread=16, rsd=False, enable_ranks=ranks)
+                o1 = hc.run_hod(halos, few, tracers, Nthread=1, rsd=False, enable_ranks=ranks)
+                for t in S:
+                    nc = o1[t]['Ncent']
+                    for col in ('x', 'vz', 'mass', 'id'):
+                        a1, a16 = np.asarray(o1[t][col]), np.asarray(o16[t][col])
+                        if o16[t]['Ncent'] != nc or a1.shape != a16.shape or not np.array_equal(a1, a16):
+                            chk.violation(f'assembly-few-satellites-{col}', f'{desc}: with 3 particles and 16 threads the {t} rows after the centrals do not carry their host ({col} differs from the single-thread catalogue)', dict(S=S, tracer=t))
+                            break
+                    sidx_ids = np.asarray(o16[t]['id'])[nc:]
+                    if len(sidx_ids) and not np.all(np.isin(sidx_ids, few['phid'])):
+                        chk.violation('assembly-few-satellites-hostid', f'{desc}: satellite rows carry ids that are not host ids of any particle', dict(S=S, tracer=t))
             if ci == 0 and len(S) == 3:
                 i0 = next(i for i in range(n) if len(allowed[i]) > 1)
                 chk.sample(dict(tracers=S, halo_edges=m[i0][1:].tolist(), u=float(halos['hrandoms'][i0]), acceptable=sorted(allowed[i0]), got=int(sel_c[i0])))
